@@ -171,6 +171,17 @@ let w_par (i : float init) (k : z) =
   wz p.p_water_table; wf (p.p_co2c k); wf p.p_co2r; wz p.p_evap_steps; wb p.p_sim_off;
   w_crop (p.p_crop k); w_full (i.i_crops k);
   w_crop p.p_fallow_crop; w_full (i.i_crops (z_of_int (-1)))
+(* the structures right after _initialize(): the concentration and the crop objects as initialisation leaves them are the ones the
+   model keeps for the days before the first season (p_co2c (-1), the filler crop = a copy of the crop of season 0 at that time);
+   the crop of season 0 IN FORCE during season 0 (after its reset, when the run starts before the first planting date) is compared
+   by `season 0` *)
+let w_par_init (i : float init) =
+  let p = i.i_par in
+  let m1 = z_of_int (-1) in
+  w_soil p.p_soil; w_irr p.p_irr; w_irr p.p_fallow_irr; w_field p.p_field; w_field p.p_fallow_field;
+  wz p.p_water_table; wf (p.p_co2c m1); wf p.p_co2r; wz p.p_evap_steps; wb p.p_sim_off;
+  w_crop { p.p_fallow_crop with c_id = z_of_int 0 }; w_full (i.i_crops m1);
+  w_crop p.p_fallow_crop; w_full (i.i_crops m1)
 
 let cur : float config option ref = ref None
 let cur_init : float init ires0 option ref = ref None
@@ -188,7 +199,7 @@ let () =
     match get_init () with
     | IErr_ e -> ws "N"; ws (err_name e)
     | IOk0 i ->
-      ws "S"; w_par i (z_of_int 0);
+      ws "S"; w_par_init i;
       let c = i.i_clock in
       wz c.n_steps; wlist wz c.plant; wlist wz c.harv;
       wz (match c.plant with p :: _ -> if int_of_z p = 0 then z_of_int 0 else z_of_int (-1) | [] -> z_of_int (-1));
@@ -218,6 +229,15 @@ let () =
     | RInitErr e -> ws "I"; ws (err_name e)
     | RRaise IndexError -> ws "R IndexError"
     | RRaise KeyError -> ws "R KeyError"
+    | RResetRaise (kb, None) -> ws "X"; wz kb
+    | RResetRaise (kb, Some m) ->
+      (* the rows / summary rows of the seasons before kb: what the implementation has written when the reset raises *)
+      let k = int_of_z kb in
+      ws "X"; wz kb;
+      let rs = List.filter (fun (_, (row : float dRow)) -> int_of_z row.r_flux.fl_season < k) (List.rev m.tabs.rows) in
+      wi (List.length rs); List.iter (fun (_, row) -> ws "|"; w_row row) rs;
+      let ss = List.filter (fun r -> int_of_z r.s_season < k) (List.rev m.tabs.sums) in
+      ws "#"; wi (List.length ss); List.iter w_sum ss
     | RRun None -> ws "U"
     | RRun (Some (GRaise IndexError)) -> ws "R IndexError"
     | RRun (Some (GRaise KeyError)) -> ws "R KeyError"
